@@ -995,6 +995,11 @@ class Builder:
         n_ = rx.int_const(e) if e.get("k") == "path" else None
         if n_ is not None:
             return (n_, n_)
+        if e.get("k") == "path":
+            # `const OCTAL_LEN: RangeInclusive<usize> = 3..=4;`
+            tgt = rx.CONST_REG.get("::".join(e["segs"])) or rx.CONST_REG.get(e["segs"][-1])
+            if isinstance(tgt, dict) and tgt.get("k") == "range":
+                return self._range(tgt)
         return None
 
     def _pe_call(self, e, env):
